@@ -110,10 +110,10 @@ TEXT = {
           "isc-dhcpd lease file the by-address, by-MAC and by-name (case-insensitive, with the .local alias) lookups return a value iff some lease "
           "entry of the file associates it with the key, each listed once (appendUniq = sorted insertion without duplicates, proved through the "
           "binary search); for every cap and "
-          "announcement sequence the mDNS name table never exceeds the cap and eviction removes a least-recently-updated name. Tie: appendUniq, "
+          "announcement sequence the mDNS name table never exceeds the cap, eviction removes a least-recently-updated name, and the name->address and address->name views agree (invariant through additions and evictions). Tie: appendUniq, "
           "lease readers, hosts reader, merlin list and the real mDNS reader (packets over UDP, >1000 names) compared with the extracted model; "
           "sorted-insertion spec and views_agree evaluated on the implementation's own outputs.",
-  "note": "Trusted: Coq kernel, extraction, driver, harness, add-only overlay exports of unexported readers. mDNS view agreement is checked per case by an extracted spec, not yet proved in general. Defects F5 (appendUniq) and F7 (mDNS eviction) fixed in /repo.",
+  "note": "Trusted: Coq kernel, extraction, driver, harness, add-only overlay exports of unexported readers. Defects F5 (appendUniq) and F7 (mDNS eviction) fixed in /repo.",
   "technique": "Coq proof (association-list folds, eviction bound by induction) + differential correspondence check incl. real UDP mDNS packets",
  },
  "C19": {
